@@ -36,10 +36,11 @@ VF_SUB(vtmf_mix_follows_secret, 2000, 30000) {
   for (size_t i = 0; i < n; i++) { VTMF_Card c; if (ctx.c.coin()) T[0]->TMCG_CreateOpenCard(c, P[0], types[i]); else { VTMF_CardSecret cs; T[0]->TMCG_CreatePrivateCard(c, cs, P[0], types[i]); } s.push(c); }
   size_t rounds = (size_t)ctx.c.range(1, n <= 16 ? 3 : 1);
   std::ostringstream d; d << group_desc(g) << " k=" << k << " w=" << w << " n=" << n << " types=" << vstr(types) << " rounds=";
-  bool anynonid = false;
+  bool anynonid = false; bool keep_secret_object = ctx.c.coin(); TMCG_StackSecret<VTMF_CardSecret> ss; if (keep_secret_object && rounds > 1) ctx.label("secret-object-kept-across-rounds");
   for (size_t r = 0; r < rounds && !ctx.failed; r++) {
     size_t j = ctx.c.index(k); bool cyclic = (n >= 2) && ctx.c.prob(1, 3), tap = ctx.c.coin(), explicit_pi = (!cyclic && n <= 5 && ctx.c.coin());
-    TMCG_StackSecret<VTMF_CardSecret> ss; size_t ret = 0; std::vector<size_t> want;
+    if (!keep_secret_object || explicit_pi) ss.clear(); // the explicit-permutation overload appends by design
+    size_t ret = 0; std::vector<size_t> want;
     if (explicit_pi) { want = nth_permutation(n, ctx.c.index(factorial(n))); T[j]->TMCG_CreateStackSecret(ss, want, n, P[j]); }
     else ret = T[j]->TMCG_CreateStackSecret(ss, cyclic, n, P[j]);
     std::vector<size_t> pi = indices(ss);
@@ -74,10 +75,11 @@ VF_SUB(rabin_mix_follows_secret, 150, 4000) {
   std::vector<size_t> types(n); for (size_t i = 0; i < n; i++) types[i] = ctx.c.index(maxt);
   TMCG_Stack<TMCG_Card> s;
   for (size_t i = 0; i < n; i++) { TMCG_Card c(k, w); tmcg.TMCG_CreateOpenCard(c, P.ring, types[i]); s.push(c); }
-  size_t rounds = (size_t)ctx.c.range(1, 2); bool anynonid = false; d << " types=" << vstr(types) << " rounds=";
+  size_t rounds = (size_t)ctx.c.range(1, 2); bool anynonid = false; bool keep_secret_object = ctx.c.coin(); TMCG_StackSecret<TMCG_CardSecret> ss; if (keep_secret_object && rounds > 1) ctx.label("secret-object-kept-across-rounds"); d << " types=" << vstr(types) << " rounds=";
   for (size_t r = 0; r < rounds && !ctx.failed; r++) {
     size_t j = ctx.c.index(k); bool cyclic = (n >= 2) && ctx.c.prob(1, 3), tap = ctx.c.coin(), explicit_pi = (!cyclic && n <= 5 && ctx.c.coin());
-    TMCG_StackSecret<TMCG_CardSecret> ss; size_t ret = 0; std::vector<size_t> want;
+    if (!keep_secret_object || explicit_pi) ss.clear(); // the explicit-permutation overload appends by design
+    size_t ret = 0; std::vector<size_t> want;
     if (explicit_pi) { want = nth_permutation(n, ctx.c.index(factorial(n))); tmcg.TMCG_CreateStackSecret(ss, want, P.ring, j, n); }
     else ret = tmcg.TMCG_CreateStackSecret(ss, cyclic, P.ring, j, n);
     std::vector<size_t> pi = indices(ss);
@@ -102,16 +104,32 @@ VF_SUB(rabin_mix_follows_secret, 150, 4000) {
 
 // every freshly generated secret holds a bijection / rotation, all sizes up to TMCG_MAX_CARDS
 VF_SUB(created_secret_is_bijection, 1500, 40000) {
-  static VtmfPlayers *P = nullptr; static SchindelhauerTMCG *T = nullptr;
+  static VtmfPlayers *P = nullptr; static SchindelhauerTMCG *T = nullptr; static RabinPlayers *RP = nullptr; static SchindelhauerTMCG *RT = nullptr;
   if (!P) { GroupSpec g{G_SCHNORR, 384, 128, 0}; rng_push(77); P = new VtmfPlayers(g, 1); rng_pop(); T = new SchindelhauerTMCG(16, 1, 1); }
   bool cyclic = ctx.c.coin();
   size_t n; switch (ctx.c.weighted({5, 3, 2})) { case 0: n = (size_t)ctx.c.range(cyclic ? 2 : 1, 8); break; case 1: n = (size_t)ctx.c.range(9, 64); break; default: n = (size_t)ctx.c.range(65, TMCG_MAX_CARDS); }
   if (ctx.c.prob(1, 20)) n = TMCG_MAX_CARDS;
-  TMCG_StackSecret<VTMF_CardSecret> ss; size_t ret = T->TMCG_CreateStackSecret(ss, cyclic, n, (*P)[0]);
-  std::vector<size_t> pi = indices(ss);
-  ctx.desc << (cyclic ? "rotation" : "permutation") << " n=" << n << " -> " << vstr(pi) << " ret=" << ret;
-  check_created(ctx, pi, cyclic, ret, n, "vtmf", ctx.desc.str());
-  ctx.label(cyclic ? "rotation" : "permutation"); ctx.label(n <= 8 ? "n<=8" : n <= 64 ? "n<=64" : "n>64");
+  // the secret object handed to the generator: fresh, or one that already holds an earlier secret (applications re-draw a rotation
+  // until the wanted offset appears and keep one secret variable across shuffles), or one that was filled by an import
+  bool rabin = ctx.c.prob(1, 4); if (rabin && n > 40) n = 2 + n % 39; // the Rabin-type card secrets cost a Jacobi search per bit
+  int reuse = (int)ctx.c.weighted({2, 2, 1}); size_t m = reuse ? (ctx.c.coin() ? n : (size_t)ctx.c.range(1, rabin ? 12 : 40)) : 0; bool cyc0 = m >= 2 && ctx.c.coin();
+  std::vector<size_t> pi; size_t ret;
+  if (!rabin) {
+    TMCG_StackSecret<VTMF_CardSecret> ss;
+    if (reuse == 1) T->TMCG_CreateStackSecret(ss, cyc0, m, (*P)[0]);
+    else if (reuse == 2) { TMCG_StackSecret<VTMF_CardSecret> o; T->TMCG_CreateStackSecret(o, cyc0, m, (*P)[0]); std::ostringstream os; os << o; if (!ss.import(os.str())) { ctx.fail("import/stacksecret/bijection-refused", "own export of a generated secret, m=" + std::to_string(m)); return; } }
+    ret = T->TMCG_CreateStackSecret(ss, cyclic, n, (*P)[0]); pi = indices(ss);
+  } else {
+    if (!RP) { RP = new RabinPlayers(1, 672, 0); RT = new SchindelhauerTMCG(2, 1, 1); }
+    TMCG_StackSecret<TMCG_CardSecret> ss;
+    if (reuse == 1) RT->TMCG_CreateStackSecret(ss, cyc0, RP->ring, 0, m);
+    else if (reuse == 2) { TMCG_StackSecret<TMCG_CardSecret> o; RT->TMCG_CreateStackSecret(o, cyc0, RP->ring, 0, m); std::ostringstream os; os << o; if (!ss.import(os.str())) { ctx.fail("import/stacksecret/bijection-refused", "own export of a generated secret (TMCG_CardSecret), m=" + std::to_string(m)); return; } }
+    ret = RT->TMCG_CreateStackSecret(ss, cyclic, RP->ring, 0, n); pi = indices(ss);
+  }
+  const char *rn = reuse == 0 ? "fresh-object" : reuse == 1 ? "object-held-earlier-secret" : "object-held-imported-secret";
+  ctx.desc << (rabin ? "rabin " : "vtmf ") << (cyclic ? "rotation" : "permutation") << " n=" << n << " " << rn << (reuse ? " of size " + std::to_string(m) : "") << " -> " << vstr(pi) << " ret=" << ret;
+  check_created(ctx, pi, cyclic, ret, n, std::string(rabin ? "rabin" : "vtmf") + (reuse ? "/reused-object" : ""), ctx.desc.str());
+  ctx.label(cyclic ? "rotation" : "permutation"); ctx.label(n <= 8 ? "n<=8" : n <= 64 ? "n<=64" : "n>64"); ctx.label(rabin ? "rabin" : "vtmf"); ctx.label(rn);
   bool nonid = false; for (size_t i = 0; i < pi.size(); i++) if (pi[i] != i) nonid = true;
   if (n >= 3 && nonid) ctx.nontrivial(ctx.desc.str());
 }
